@@ -467,6 +467,12 @@ func (s *AbsfsNFS) WriteWithContext(ctx context.Context, node *NFSNode, offset i
 		data = data[:tuning.TransferSize]
 	}
 
+	// Enforce the export's MaxFileSize: a write that would end beyond it is
+	// refused as a whole (NFS3ERR_FBIG) and leaves the file unchanged.
+	if policy.MaxFileSize > 0 && (offset > policy.MaxFileSize || int64(len(data)) > policy.MaxFileSize-offset) {
+		return 0, &os.PathError{Op: "write", Path: node.path, Err: syscall.EFBIG}
+	}
+
 	// Standard write path
 	f, err := s.fs.OpenFile(node.path, os.O_WRONLY, 0)
 	if err != nil {
